@@ -146,7 +146,7 @@ func (t jtx) render(order int, dupKey string) string {
 			if dupKey == "transfer.amount-replaced" && i == 0 {
 				// no "amount" member; an unknown one of about the length an amount would take stands in its place
 				alt := []string{`"amnout":5`, `"amt":1000`, `"memo":"x"`, `"note":"a"`, `"amount ":1`, `"Amount":77`, `"a":123456`, `"amoun":12`, `"x":0`}
-				s = fmt.Sprintf(`{"address":"%s",%s}`, o[0], alt[(len(o[1])+len(o[0]))%len(alt)])
+				s = fmt.Sprintf(`{"address":"%s",%s}`, o[0], alt[(int(o[0][10])+int(o[0][20])+int(o[0][30]))%len(alt)])
 			}
 			os = append(os, s)
 		}
@@ -208,6 +208,17 @@ func (g *c20gen) batch() (string, string) {
 		case "unknown-conv":
 			if i == 0 && t.conv != "" {
 				t.conv = []string{"pNOPE", "peg", "Peg", "PEGG", "pXBTC"}[g.rng.Intn(5)]
+			}
+		case "transfer.amount-replaced":
+			// the first output carries no amount (an unknown member instead): the others add up to the input
+			if i == 0 && len(t.outs) > 0 {
+				tot := new(big.Int)
+				for oi := 1; oi < len(t.outs); oi++ {
+					b, _ := new(big.Int).SetString(t.outs[oi][1], 10)
+					tot.Add(tot, b)
+				}
+				t.outs[0][1] = "0"
+				t.amount = tot.String()
 			}
 		case "escaped-ticker":
 			// a ticker spelled with JSON escapes: decodes to a listed name, but is not that name as written
